@@ -99,6 +99,15 @@ def run(ctx):
             cc.append((std, str(o.tree), dict(ignore_comments=k % 4 < 2)))
     corr = engine_corr.corr_cases(cc)
     corr["samples"] = [dict(std=cc[0][0], source=cc[0][1][:600])]
+    # statement level: the models of EndStmtBase / WORDClsBase against the live classes that delegate to them
+    import stmtbase_corr
+    sb = stmtbase_corr.corr(ctx.seed, ctx.n(40, 400))
+    corr["cases"] += sb["cases"]
+    corr["distinct"] = corr.get("distinct", corr["cases"] - sb["cases"]) + sb["cases"]
+    corr["disagreements"] = list(corr.get("disagreements", [])) + sb["disagreements"]
+    corr["statement_level"] = dict(end_classes=sb["end_classes"], keyword_classes=sb["word_classes"], cases=sb["cases"],
+                                   not_modelled=sb["not_modelled"])
+    corr["samples"] += sb["samples"]
     jobs = [(("f2003", "f2008")[k % 2], ctx.seed * 409 + k // 8, k % 4) for k in range(ctx.n(500, 16000))]
     # catalogue of less usual statement forms and of entities named like keywords (whatever parses must round-trip)
     import catalogue
@@ -128,7 +137,10 @@ def run(ctx):
     return common.finish(ctx, proof, corr, e2e, extra_assumptions=[
         "proved (regenerated tables, every leaf oracle): parsing a tree's own statements again returns the same tree "
         "(exact from the second round on, when line numbers are those of the printed text)",
-        "not modelled: the ~400 statement-level match()/tostr() pairs (that a printed statement is classified like "
+        "statement level: EndStmtBase.match/tostr and WORDClsBase.match (string keyword) are modelled and proved to re-match "
+        "their own text for every live class that delegates to them with constant arguments (13 END + 24 keyword classes, "
+        "read off the source on every run); the sub-rule class of a keyword statement stays outside the model",
+        "not modelled: the other ~360 statement-level match()/tostr() pairs (that a printed statement is classified like "
         "the original) -- checked end to end; the print order of BlockBase.tofortran and its overrides is checked "
         "against the leaves on every explored tree"])
 
